@@ -37,12 +37,96 @@ def rationalize(f: float):
     return sp.Rational(fr.numerator, fr.denominator)
 
 
+# ---------------------------------------------------------------------------------------------- let-definitions
+# sympy folds a Piecewise whose *condition* contains another Piecewise (ExprCondPair does it on construction), which is
+# exponential for chains such as  where(a != 0, a, where(b != 0, b, c)) != other.  Sides of relations that contain a
+# selection are therefore named: let_n(generic indices...) := expression.  The name is an applied function of the generic
+# index symbols the expression depends on, so sums, shifts and substitutions of indices act on it correctly; the back
+# ends expand the definition (z3back) and normal forms treat it as an atom.
+LETS: dict = {}          # function class -> (index symbols, defining expression)
+INDEX_SYMBOLS: set = set()   # generic index symbols k_D (registered by symarr.Dim)
+_LET_MEMO: dict = {}
+
+
+def let(expr):
+    expr = sp.sympify(expr)
+    r = _LET_MEMO.get(expr)
+    if r is None:
+        idx = tuple(sorted((x for x in expr.free_symbols if x in INDEX_SYMBOLS), key=str))
+        f = sp.Function(f"let{len(LETS) + 1}", real=True, integer=bool(expr.is_integer) or None)
+        LETS[f] = (idx, expr)
+        r = _LET_MEMO[expr] = f(*idx) if idx else f(sp.Integer(0))
+    return r
+
+
+def expand_lets(e):
+    """replace every let_n(...) by its definition (recursively); the result may be slow to build -- for back ends only"""
+    from sympy.core.function import AppliedUndef
+    e = sp.sympify(e)
+    apps = [a for a in e.atoms(AppliedUndef) if a.func in LETS]
+    if not apps:
+        return e
+    rep = {}
+    for a in apps:
+        idx, body = LETS[a.func]
+        rep[a] = expand_lets(body.xreplace(dict(zip(idx, a.args))) if idx else body)
+    return e.xreplace(rep)
+
+
+def subst_lets(e, rep, post=None):
+    """e with the substitution `rep` applied through the let-definitions (new names for the substituted definitions), without
+    ever building the nested selection; `post` is applied to every substituted piece (e.g. to expand polynomial arguments)"""
+    from sympy.core.function import AppliedUndef
+    e = sp.sympify(e)
+    apps = [a for a in e.atoms(AppliedUndef) if a.func in LETS]
+    inner = {}
+    for a in apps:
+        idx, body = LETS[a.func]
+        b = body.xreplace(dict(zip(idx, a.args))) if idx else body
+        inner[a] = let(subst_lets(b, rep, post))
+    out = e.xreplace(inner).xreplace(rep)
+    return post(out) if post else out
+
+
+def deep_atoms(e, seen=None):
+    """free symbols and applied undefined functions of e, looking through let-definitions"""
+    from sympy.core.function import AppliedUndef
+    e = sp.sympify(e)
+    out = set(e.free_symbols)
+    for a in e.atoms(AppliedUndef):
+        if a.func in LETS:
+            idx, body = LETS[a.func]
+            out |= deep_atoms(body.xreplace(dict(zip(idx, a.args))) if idx else body)
+            out -= set()  # arguments are substituted already
+        else:
+            out.add(a)
+    return out
+
+
+def name_selections(cond):
+    """a condition whose relations have sides containing a Piecewise: those sides are replaced by let-names"""
+    if not getattr(cond, "has", None) or not cond.has(sp.Piecewise):
+        return cond
+    rep = {}
+    for rel in cond.atoms(sp.core.relational.Relational):
+        if rel.has(sp.Piecewise):
+            lhs = let(rel.lhs) if rel.lhs.has(sp.Piecewise) else rel.lhs
+            rhs = let(rel.rhs) if rel.rhs.has(sp.Piecewise) else rel.rhs
+            rep[rel] = rel.func(lhs, rhs)
+    return cond.xreplace(rep)
+
+
+def select(pairs):
+    """Piecewise((value, condition), ...) with selections inside the conditions named first"""
+    return sp.Piecewise(*[(v, c if c is True or c is sp.true else name_selections(c)) for v, c in pairs])
+
+
 def to_expr(x):
     """Python / numpy / Sym value -> sympy expression."""
     if isinstance(x, Sym):
         return x.e
     if isinstance(x, SymBool):
-        return sp.Piecewise((sp.Integer(1), x.e), (sp.Integer(0), True))
+        return select([(sp.Integer(1), x.e), (sp.Integer(0), True)])
     if isinstance(x, (bool, np.bool_)):
         return sp.Integer(int(x))
     if isinstance(x, (int, np.integer)):
